@@ -235,7 +235,8 @@ def expand_combinators(prog, d):
             locs.append({"ty": ty, "name": name})
             return len(locs) - 1
         # hold the receiver in a plain local
-        rl = new_local("?", "")
+        rty = locs[recv["place"]["local"]]["ty"] if not recv["place"]["proj"] and recv["place"]["local"] < len(locs) else "?"
+        rl = new_local(rty, "")
         b["stmts"].append({"place": {"local": rl, "proj": []}, "rv": {"k": "use", "op": recv}, "line": line})
         if enum == "bool":
             dl = rl
@@ -513,6 +514,8 @@ def expand_consumers(prog, d):
         is_try = last.startswith("try_")
         has_acc = last in ("fold", "try_fold")
         dest_ty = locs[dest["local"]]["ty"] if dest["local"] < len(locs) else "?"
+        if dest_ty in ("?", "") and is_try and t["callee"].get("args"):
+            dest_ty = str(t["callee"]["args"][-1])           # Iterator::try_for_each::<F, R>: R is the result type
         if is_try and not (dest_ty.startswith("std::result::Result<") or dest_ty.startswith("std::option::Option<")):
             continue
         enum = RESULT if dest_ty.startswith("std::result::Result<") else OPTION
@@ -572,7 +575,11 @@ def expand_consumers(prog, d):
             cargs = [fop, mv(tup)]
         else:
             cargs = args_ops
-        res = new_local("?", "step")
+        try:
+            res_ty = prog.fns[fdef[1]].ret_ty()
+        except Exception:
+            res_ty = "?"
+        res = new_local(res_ty or "?", "step")
         after = new_block()
         blocks[body]["term"] = {"k": "call", "callee": {"path": fdef[1], "resolved": fdef[1], "is_resolved": True, "local": True, "crate": "", "args": []},
                                 "args": cargs, "dest": {"local": res, "proj": []}, "target": after, "span": span}
